@@ -266,7 +266,7 @@ func (g *G) Bundle(nFiles, nTmpl int) *Program {
 			f.Namespace = b.Files[i-1].Namespace
 		}
 		if g.O.Autoescape {
-			f.Autoescape = g.pick([]string{"", "", "true", "false", "contextual"})
+			f.Autoescape = g.pick([]string{"", "", "true", "false", "contextual", "deprecated-contextual"})
 		}
 		b.Files = append(b.Files, f)
 	}
@@ -305,7 +305,7 @@ func (g *G) Bundle(nFiles, nTmpl int) *Program {
 		g.curFile = f
 		g.scope, g.loops, g.marks, g.echo = nil, nil, nil, nil
 		if g.O.Autoescape {
-			t.Autoescape = g.pick([]string{"", "", "", "true", "false", "contextual"})
+			t.Autoescape = g.pick([]string{"", "", "", "true", "false", "contextual", "deprecated-contextual"})
 		}
 		t.HeaderStyle = g.R.P(1, 3)
 		t.Private = g.R.P(1, 8) && i > 0
